@@ -112,6 +112,87 @@ def rename_closure_vars(path, opaque=False):
     return ast.unparse(m.tree)
 
 
+def cellify(path):
+    """`nonlocal x` closure state -> one-element list cell (`x = [v]`, `x[0]` everywhere): the repo uses both spellings."""
+    sys.path.insert(0, V)
+    from sa.frontend import Module
+    src = open(path).read()
+    m = Module(path, os.path.basename(path), "m", src)
+    todo = []
+    for S in m.root.walk():
+        if not S.is_func:
+            continue
+        for name, binds in list(S.binds.items()):
+            kinds = {k for k, _ in binds}
+            if kinds - {"assign", "annassign", "augassign"} or name in S.globals_ or name in S.nonlocals or name in S.params:
+                continue
+            users = [g for g in S.descendants() if g.is_func and g.owner(name) is S]
+            if not any(name in g.nonlocals for g in users):
+                continue
+            # only simple statements: `name = v` / `name: T = v` / `name += v` targets, plain loads
+            ok = True
+            for g in [S] + users:
+                for n in g.direct_nodes():
+                    if isinstance(n, (ast.Tuple, ast.List)) and isinstance(getattr(n, "ctx", None), ast.Store) and any(isinstance(e, ast.Name) and e.id == name for e in n.elts):
+                        ok = False
+                    if isinstance(n, (ast.For, ast.comprehension)) and any(isinstance(x, ast.Name) and x.id == name for x in ast.walk(n.target)):
+                        ok = False
+                    if isinstance(n, (ast.With,)) and any(i.optional_vars is not None and any(isinstance(x, ast.Name) and x.id == name for x in ast.walk(i.optional_vars)) for i in n.items):
+                        ok = False
+                    if isinstance(n, ast.ExceptHandler) and n.name == name:
+                        ok = False
+                    if isinstance(n, ast.AnnAssign) and isinstance(n.target, ast.Name) and n.target.id == name and n.value is None:
+                        ok = False
+                    if isinstance(n, ast.Delete):
+                        ok = False
+            if ok:
+                todo.append((S, name, users))
+    for S, name, users in todo:
+        inits = set()
+        for g in [S] + users:
+            for n in list(g.direct_nodes()):
+                if isinstance(n, ast.Name) and n.id == name:
+                    n._cell = True
+                if isinstance(n, ast.Nonlocal) and name in n.names:
+                    n.names = [x for x in n.names if x != name]
+
+        class T(ast.NodeTransformer):
+            def __init__(self, scope_nodes):
+                self.ids = {id(x) for x in scope_nodes}
+
+            def visit_Name(self, n):
+                if getattr(n, "_cell", False):
+                    del n._cell
+                    return ast.Subscript(value=ast.Name(id=name, ctx=ast.Load()), slice=ast.Constant(0), ctx=n.ctx)
+                return n
+        # the first plain assignment in S becomes the allocation of the cell
+        first = None
+        for n in S.direct_nodes():
+            if isinstance(n, (ast.Assign, ast.AnnAssign)) and first is None:
+                tg = n.targets[0] if isinstance(n, ast.Assign) else n.target
+                if isinstance(tg, ast.Name) and tg.id == name and n.value is not None:
+                    first = n
+        if first is None:
+            for g in [S] + users:
+                for n in g.direct_nodes():
+                    if hasattr(n, "_cell"):
+                        del n._cell
+            continue
+        tgt = first.targets[0] if isinstance(first, ast.Assign) else first.target
+        del tgt._cell
+        T([]).visit(S.node)
+        first.value = ast.List(elts=[first.value], ctx=ast.Load())
+        if isinstance(first, ast.AnnAssign):
+            first.annotation = ast.Name(id="list", ctx=ast.Load())
+    # drop emptied nonlocal statements
+    class Clean(ast.NodeTransformer):
+        def visit_Nonlocal(self, n):
+            return n if n.names else ast.Pass()
+    Clean().visit(m.tree)
+    ast.fix_missing_locations(m.tree)
+    return ast.unparse(m.tree)
+
+
 def transform(root, kind):
     n = 0
     for dp, _, fns in os.walk(os.path.join(root, "reactivex")):
@@ -129,6 +210,12 @@ def transform(root, kind):
                 tree = RenameLocals().visit(tree)
             elif kind == "extractcond":
                 tree = ExtractCond().visit(tree)
+            elif kind == "cellify":
+                out = cellify(p)
+                compile(out, p, "exec")
+                open(p, "w").write(out + "\n")
+                n += 1
+                continue
             elif kind in ("rename2", "rename3"):
                 out = rename_closure_vars(p, opaque=(kind == "rename3"))
                 compile(out, p, "exec")
@@ -146,7 +233,7 @@ def transform(root, kind):
 def main():
     kinds = [a for a in sys.argv[1:] if not a.startswith("--")] or ["all"]
     if kinds == ["all"]:
-        kinds = ["unparse", "flipcmp", "invertif", "rename", "rename2", "rename3", "extractcond"]
+        kinds = ["unparse", "flipcmp", "invertif", "rename", "rename2", "rename3", "extractcond", "cellify"]
     bad = 0
     for kind in kinds:
         tmp = tempfile.mkdtemp(prefix="rxsa_rf_")
